@@ -20,6 +20,14 @@ package bfe_server
 //      (MultiCert.Get, TLSServerRule.Get, StatusNextProto, GetHTTP2Rule) for two connections
 //   B/E/W  the reload handlers mod_block / mod_header / mod_rewrite registered with the web
 //      monitor (product rule tables, version 2 files)
+//   reloads bfe must REJECT: x gslb.data refused by its loader, y gslb.data naming a cluster that
+//      cluster_table.data lacks (refused inside BalTableReload), z the same for an additional new
+//      cluster while the probe cluster is unchanged (partial failure), p route_rule.data refused
+//      by its loader, q route table naming a cluster absent from cluster_conf.data (cross-file
+//      check), e mod_header data refused by its loader; w gslb.data weighting a sub-cluster that
+//      cluster_table.data lacks (bfe accepts it; loaded alone it answers BK_NO_BACKEND)
+//   Q(...)  one thread running several of the above one after the other, e.g. Q(GyR) = valid
+//      reload, rejected reload, request: the sequential histories valid -> rejected -> request
 //
 // All interleavings of the threads of a scenario at their synchronisation points, up to the
 // preemption bound, are executed on the real code; every execution starts from a freshly
@@ -33,7 +41,12 @@ package bfe_server
 //     host to three different products and 9 different clusters with 27 different timeout
 //     values, so any mixture is visible.
 //   * balancing: the (sub-cluster, backend) a request obtains, or its failure, is an outcome
-//     the request has under one of the gslb versions alone.
+//     the request has under ONE successfully applied gslb configuration alone. A rejected reload
+//     adds no admissible outcome: during and after it the last successfully applied configuration
+//     serves (after a partially rejected one the clusters the failure did not touch may run on
+//     the old or on the new data, never on "no cluster"); a request that runs after the reloads of
+//     its own thread must be served by the last one that applied, and its snapshot must be the
+//     last server data conf that was successfully installed.
 //   * transport: the five parameters setTransports compares (ResponseHeaderTimeout,
 //     MaxIdleConnsPerHost, MaxConnsPerHost, ReqWriteBufferSize, ReqFlushInterval) of the real
 //     *bfe_http.Transport handed to the request are read, unlocked as the real RoundTrip reads
@@ -197,33 +210,90 @@ func c15writeServerConf(dir string, z int) c15files {
 	}
 }
 
-// gslb data: exactly ONE cluster has a balancer (map iteration order inside BalTable must not
-// influence the schedule: Go randomises it). c (1..3) says which consistent cluster k<c><c> it
-// is; g is the version of the gslb data:
-//   g=1: sub-cluster s1 (weight 100) with backend 10.1.<c>.1:80
-//   g=2: the cluster moves to a NEW sub-cluster s2 with backend 10.2.<c>.1:80 (s1 disappears)
-//   g=3: s1 stays but its backend is replaced by 10.3.<c>.1:80
+// gslb data: exactly ONE cluster of the serving configuration has a balancer (map iteration
+// order inside BalTable must not influence the schedule: Go randomises it). c (1..3) says which
+// consistent cluster k<c><c> it is; the version of the gslb data is a letter:
+//   '1' initial: sub-cluster s1 (weight 100) with backend 10.1.<c>.1:80
+//   'G' valid: the cluster moves to a NEW sub-cluster s2 with backend 10.2.<c>.1:80 (s1 disappears)
+//   'g' valid: s1 stays but its backend is replaced by 10.3.<c>.1:80
+//   'w' valid for bfe (no cross-check exists), degenerate: gslb.data weights s2, cluster_table.data
+//       only has s1: loaded alone this configuration answers BK_NO_BACKEND
+//   'x' REJECTED by the file loader: gslb.data with total weight 0
+//   'y' REJECTED inside BalTableReload: gslb.data moves the cluster to s2, cluster_table.data does
+//       not contain the cluster at all
+//   'z' REJECTED partially inside BalTableReload: gslb.data has the cluster unchanged (as '1') plus
+//       a new cluster "img" that cluster_table.data does not have (the state in which the two files
+//       are pushed one after the other). Two clusters in one map: only used in scenarios whose
+//       threads run one after another.
 type c15gfiles struct{ gslb, table string }
 
-func c15gslbOutcome(c, g int) string {
-	sub := "s1"
-	if g == 2 {
-		sub = "s2"
+const c15gslbValid = "Ggw"    // reloads that must succeed
+const c15gslbRejected = "xyz" // reloads bfe must answer with an error
+
+// c15gslbOutcome: what a request for the cluster gets when the data of that letter are in force
+// ("" = the letter never becomes a configuration of the probe cluster).
+func c15gslbOutcome(c int, g rune) string {
+	switch g {
+	case '1', 'z': // z leaves the probe cluster's data as they are initially
+		return fmt.Sprintf("s1/10.1.%d.1:80", c)
+	case 'G':
+		return fmt.Sprintf("s2/10.2.%d.1:80", c)
+	case 'g':
+		return fmt.Sprintf("s1/10.3.%d.1:80", c)
+	case 'w':
+		return "fail:" + bfe_basic.ErrBkNoBackend.Error()
 	}
-	return fmt.Sprintf("%s/10.%d.%d.1:80", sub, g, c)
+	return ""
 }
 
-func c15writeGslb(dir string, c, g int) c15gfiles {
+func c15writeGslb(dir string, c int, g rune) c15gfiles {
 	name := c15cluster(c, c)
-	oc := c15gslbOutcome(c, g)
-	sub, addr := oc[:2], oc[3:]
-	host := addr[:strings.LastIndex(addr, ":")]
-	gs := c15M{name: c15M{sub: 100}}
-	tb := c15M{name: c15M{sub: []c15M{{"Addr": host, "Name": "b-" + host, "Port": 80, "Weight": 1}}}}
-	return c15gfiles{
-		gslb:  c15write(dir, "gslb.data", c15M{"Clusters": gs, "Hostname": "h", "Ts": fmt.Sprintf("%d", g)}),
-		table: c15write(dir, "cluster_table.data", c15M{"Config": tb, "Version": fmt.Sprintf("G%d", g)}),
+	bk := func(n int) []c15M {
+		host := fmt.Sprintf("10.%d.%d.1", n, c)
+		return []c15M{{"Addr": host, "Name": "b-" + host, "Port": 80, "Weight": 1}}
 	}
+	var gs, tb c15M
+	switch g {
+	case '1':
+		gs, tb = c15M{name: c15M{"s1": 100}}, c15M{name: c15M{"s1": bk(1)}}
+	case 'G':
+		gs, tb = c15M{name: c15M{"s2": 100}}, c15M{name: c15M{"s2": bk(2)}}
+	case 'g':
+		gs, tb = c15M{name: c15M{"s1": 100}}, c15M{name: c15M{"s1": bk(3)}}
+	case 'w':
+		gs, tb = c15M{name: c15M{"s2": 100}}, c15M{name: c15M{"s1": bk(1)}}
+	case 'x':
+		gs, tb = c15M{name: c15M{"s1": 0}}, c15M{name: c15M{"s1": bk(1)}}
+	case 'y':
+		gs, tb = c15M{name: c15M{"s2": 100}}, c15M{}
+	case 'z':
+		gs, tb = c15M{name: c15M{"s1": 100}, "img": c15M{"s1": 100}}, c15M{name: c15M{"s1": bk(1)}}
+	default:
+		panic("c15writeGslb: " + string(g))
+	}
+	return c15gfiles{
+		gslb:  c15write(dir, "gslb.data", c15M{"Clusters": gs, "Hostname": "h", "Ts": string(g)}),
+		table: c15write(dir, "cluster_table.data", c15M{"Config": tb, "Version": "G" + string(g)}),
+	}
+}
+
+// Server data conf rejected variants (files of version 2 with one of them spoiled; their host file
+// carries the version string "V9", which no request may ever see):
+//   'p' REJECTED by the file loader: route_rule.data is not JSON
+//   'q' REJECTED by the cross-file check of LoadServerDataConf: the route table names a cluster
+//       that cluster_conf.data does not have
+func c15writeBadServerConf(dir string, kind rune) c15files {
+	f := c15writeServerConf(dir, 2)
+	b, _ := os.ReadFile(f.host)
+	os.WriteFile(f.host, bytes.Replace(b, []byte(`"V2"`), []byte(`"V9"`), 1), 0o644)
+	switch kind {
+	case 'p':
+		os.WriteFile(f.route, []byte(`{"Version": "V9", "ProductRule": {`), 0o644)
+	case 'q':
+		b, _ := os.ReadFile(f.route)
+		os.WriteFile(f.route, bytes.Replace(b, []byte(`"`+c15cluster(2, 2)+`"`), []byte(`"nosuchcluster"`), 1), 0o644)
+	}
+	return f
 }
 
 // ---- in-memory client conn, response writer, stub backend ------------------------------------------
@@ -321,6 +391,9 @@ type c15obs struct {
 	fwCalled bool
 	backend  string // "sub/addr:port"
 	retryMax int
+	inSeq    bool       // the request is a step of a sequential thread
+	seqG     string     // the gslb data versions that may legally serve it after the reloads before it in that thread
+	seqS     int        // last valid server data conf version installed before it in that thread
 	tpSeen   bool       // RoundTrip was called with a real *bfe_http.Transport behind the stub
 	tp1, tp2 c15tparams // its parameters when the request was sent / right before RoundTrip returned
 	status   int
@@ -366,7 +439,9 @@ type c15env struct {
 	srv     *BfeServer
 	root    string
 	sconf   [c15nver + 1]c15files
-	gconf   [c15nver + 1][4]c15gfiles // [cluster with balancer][gslb version]
+	gconf   [c15nver + 1]map[rune]c15gfiles // [cluster with balancer][gslb version letter]
+	sbad    map[rune]c15files               // rejected server data conf variants
+	modBad  string                          // a module data file no loader accepts
 	reload  map[string]func(url.Values) error // module reload handlers by name
 	modData [3]map[string]string              // module data files per module version
 	tlsDir  [3]string
@@ -466,10 +541,16 @@ func c15newEnv(root string, withMods bool) *c15env {
 		e.sconf[z] = c15writeServerConf(filepath.Join(root, fmt.Sprintf("sv%d", z)), z)
 	}
 	for c := 1; c <= c15nver; c++ {
-		for g := 1; g <= 3; g++ {
-			e.gconf[c][g] = c15writeGslb(filepath.Join(root, fmt.Sprintf("gs%d-%d", c, g)), c, g)
+		e.gconf[c] = map[rune]c15gfiles{}
+		for _, g := range "1" + c15gslbValid + c15gslbRejected {
+			e.gconf[c][g] = c15writeGslb(filepath.Join(root, fmt.Sprintf("gs%d-%c", c, g)), c, g)
 		}
 	}
+	e.sbad = map[rune]c15files{}
+	for _, k := range "pq" {
+		e.sbad[k] = c15writeBadServerConf(filepath.Join(root, "sv-bad-"+string(k)), k)
+	}
+	e.modBad = c15write(filepath.Join(root, "mod-bad"), "bad.data", `{"Version": "M9", "Config": {`)
 	// module configuration: conf root = root/conf, version 1 data in place, version 2 beside it
 	cr := filepath.Join(root, "conf") + "/"
 	for v := 1; v <= 2; v++ {
@@ -502,8 +583,8 @@ func c15newEnv(root string, withMods bool) *c15env {
 	cfg.Server.VipRuleConf = e.sconf[1].vip
 	cfg.Server.RouteRuleConf = e.sconf[1].route
 	cfg.Server.ClusterConf = e.sconf[1].cluster
-	cfg.Server.GslbConf = e.gconf[1][1].gslb
-	cfg.Server.ClusterTableConf = e.gconf[1][1].table
+	cfg.Server.GslbConf = e.gconf[1]['1'].gslb
+	cfg.Server.ClusterTableConf = e.gconf[1]['1'].table
 	cfg.Server.NameConf = ""
 	cfg.HttpsBasic.ServerCertConf = filepath.Join(e.tlsDir[1], "server_cert_conf.data")
 	cfg.HttpsBasic.TlsRuleConf = filepath.Join(e.tlsDir[1], "tls_rule_conf.data")
@@ -553,8 +634,8 @@ func (e *c15env) reset(sc c15scn) {
 	srv := e.srv
 	srv.balTable = bfe_balance.NewBalTable(srv.GetCheckConf)
 	srv.ReverseProxy.transports = make(RoundTripperMap)
-	srv.Config.Server.GslbConf = e.gconf[sc.balOf()][1].gslb
-	srv.Config.Server.ClusterTableConf = e.gconf[sc.balOf()][1].table
+	srv.Config.Server.GslbConf = e.gconf[sc.balOf()]['1'].gslb
+	srv.Config.Server.ClusterTableConf = e.gconf[sc.balOf()]['1'].table
 	if err := srv.InitDataLoad(); err != nil {
 		panic(fmt.Sprintf("c15: reset: InitDataLoad: %v", err))
 	}
@@ -566,7 +647,7 @@ func (e *c15env) reset(sc c15scn) {
 			}
 		}
 	}
-	if strings.ContainsAny(sc.threads, "LH") {
+	if sc.hasAny("LH") {
 		srv.MultiCert = NewMultiCertMap(srv.serverStatus.ProxyState)
 		srv.TLSServerRule = NewTLSServerRuleMap(srv.serverStatus.ProxyState)
 		if err := srv.tlsConfLoad(srv.Config.HttpsBasic.ServerCertConf, srv.Config.HttpsBasic.TlsRuleConf); err != nil {
@@ -580,14 +661,42 @@ func (e *c15env) reset(sc c15scn) {
 type c15scn struct {
 	name    string
 	threads string   // one letter per thread, see the header comment
-	paths   []string // request path per R thread (default "/x")
+	seqs    []string // further threads, each running its letters one after the other ("GyR")
+	paths   []string // request path per request (default "/x")
 	mods    bool     // reset module tables although no module reload thread runs
 	bal     int      // which consistent cluster k<bal><bal> has a balancer (0 = 1)
 }
 
+// all returns the letters of all threads.
+func (sc c15scn) all() string         { return sc.threads + strings.Join(sc.seqs, "") }
+func (sc c15scn) has(l string) bool    { return strings.Contains(sc.all(), l) }
+func (sc c15scn) hasAny(l string) bool { return strings.ContainsAny(sc.all(), l) }
+
+// seqOf returns the step list of the sequential thread request o belongs to ("" if none).
+func (sc c15scn) seqOf(o *c15obs) string {
+	n := strings.Count(sc.threads, "R")
+	for _, q := range sc.seqs {
+		c := strings.Count(q, "R")
+		if o.id >= n && o.id < n+c {
+			return q
+		}
+		n += c
+	}
+	return ""
+}
+
+// specs returns the step list of every thread.
+func (sc c15scn) specs() []string {
+	var l []string
+	for _, t := range sc.threads {
+		l = append(l, string(t))
+	}
+	return append(l, sc.seqs...)
+}
+
 // usesMods: the scenario runs on the server that has mod_block / mod_header / mod_rewrite loaded
 // (the others run on a server without modules: fewer synchronisation points per request).
-func (sc c15scn) usesMods() bool { return sc.mods || strings.ContainsAny(sc.threads, "BEW") }
+func (sc c15scn) usesMods() bool { return sc.mods || sc.hasAny("BEWe") }
 
 func (sc c15scn) balOf() int {
 	if sc.bal == 0 {
@@ -596,16 +705,27 @@ func (sc c15scn) balOf() int {
 	return sc.bal
 }
 
+type c15stepRes struct {
+	letter rune
+	err    string
+}
+
 type c15result struct {
 	obs      []*c15obs
 	tls      []*c15tlsObs
 	finalVer string
 	finalRM  int // RetryMax inside the (only) balancer at quiescence
-	errs     []string
+	steps    []c15stepRes // every reload step with the error it returned ("" = nil)
 }
 
 //go:norace
-func c15note(res *c15result, s string) { res.errs = append(res.errs, s) }
+func c15note(res *c15result, l rune, err error) {
+	m := ""
+	if err != nil {
+		m = err.Error()
+	}
+	res.steps = append(res.steps, c15stepRes{l, m})
+}
 
 func (e *c15env) request(o *c15obs) {
 	srv := e.srv
@@ -676,70 +796,85 @@ func (e *c15env) exec(sc c15scn, ch *vk.Chooser) (vsched.Outcome, *c15result) {
 	srv := e.srv
 	res := &c15result{}
 	c15cur = nil
-	nr := 0
-	for _, t := range sc.threads {
-		switch t {
-		case 'R':
-			p := "/x"
-			if nr < len(sc.paths) {
-				p = sc.paths[nr]
+	specs := sc.specs()
+	// observation slots, in thread order
+	type slot struct {
+		o  *c15obs
+		hs int
+	}
+	slots := make([][]slot, len(specs))
+	nr, nh := 0, 0
+	for ti, spec := range specs {
+		slots[ti] = make([]slot, len(spec))
+		lastG, lastS := "1", 1
+		for si, t := range spec {
+			switch t {
+			case 'R':
+				p := "/x"
+				if nr < len(sc.paths) {
+					p = sc.paths[nr]
+				}
+				o := &c15obs{id: nr, path: p, inSeq: len(spec) > 1, seqG: lastG, seqS: lastS}
+				res.obs = append(res.obs, o)
+				slots[ti][si].o = o
+				nr++
+			case 'H':
+				res.tls = append(res.tls, &c15tlsObs{}, &c15tlsObs{})
+				slots[ti][si].hs = nh
+				nh++
+			case 'G', 'g', 'w':
+				lastG = string(t)
+			case 'z': // partially rejected: the untouched cluster may run on the old or on z's data
+				lastG += "z"
+			case 'S':
+				lastS = 2
+			case 'C':
+				lastS = 3
 			}
-			o := &c15obs{id: nr, path: p}
-			res.obs = append(res.obs, o)
-			nr++
-		case 'H':
-			res.tls = append(res.tls, &c15tlsObs{}, &c15tlsObs{})
 		}
 	}
 	c15cur = res.obs
-	out := vsched.Run(ch, c15maxStep, func() {
-		ri, hi := 0, 0
-		for _, t := range sc.threads {
+	step := func(t rune, sl slot) {
+		switch t {
+		case 'R':
+			e.request(sl.o)
+		case 'S', 'C', 'p', 'q':
+			f := e.sconf[2]
 			switch t {
-			case 'R':
-				o := res.obs[ri]
-				ri++
-				vsched.Go("R", func() { e.request(o) })
-			case 'S', 'C':
-				f := e.sconf[2]
-				if t == 'C' {
-					f = e.sconf[3]
-				}
-				vsched.Go(string(t), func() {
-					if err := srv.serverDataConfReload(f.host, f.vip, f.route, f.cluster); err != nil {
-						c15note(res, "serverDataConfReload: "+err.Error())
-					}
-				})
-			case 'G', 'g':
-				gf := e.gconf[sc.balOf()][2]
-				if t == 'g' {
-					gf = e.gconf[sc.balOf()][3]
-				}
-				vsched.Go(string(t), func() {
-					if err := srv.gslbDataConfReload(gf.gslb, gf.table); err != nil {
-						c15note(res, "gslbDataConfReload: "+err.Error())
-					}
-				})
-			case 'L':
-				vsched.Go("L", func() {
-					if err := srv.TLSConfReload(url.Values{"path": {e.tlsDir[2]}, "enable": {"-h2"}}); err != nil {
-						c15note(res, "TLSConfReload: "+err.Error())
-					}
-				})
-			case 'H':
-				slot := hi
-				hi++
-				vsched.Go("H", func() { e.handshake(res, slot) })
-			case 'B', 'E', 'W':
-				name := map[rune]string{'B': "mod_block", 'E': "mod_header", 'W': "mod_rewrite"}[t]
-				vsched.Go(string(t), func() {
-					if err := e.reload[name](url.Values{"path": {e.modData[2][name]}}); err != nil {
-						c15note(res, name+" reload: "+err.Error())
-					}
-				})
-			default:
-				panic("c15: unknown thread letter " + string(t))
+			case 'C':
+				f = e.sconf[3]
+			case 'p', 'q':
+				f = e.sbad[t]
 			}
+			c15note(res, t, srv.serverDataConfReload(f.host, f.vip, f.route, f.cluster))
+		case 'G', 'g', 'w', 'x', 'y', 'z':
+			gf := e.gconf[sc.balOf()][t]
+			c15note(res, t, srv.gslbDataConfReload(gf.gslb, gf.table))
+		case 'L':
+			c15note(res, t, srv.TLSConfReload(url.Values{"path": {e.tlsDir[2]}, "enable": {"-h2"}}))
+		case 'H':
+			e.handshake(res, sl.hs)
+		case 'B', 'E', 'W':
+			name := map[rune]string{'B': "mod_block", 'E': "mod_header", 'W': "mod_rewrite"}[t]
+			c15note(res, t, e.reload[name](url.Values{"path": {e.modData[2][name]}}))
+		case 'e':
+			c15note(res, t, e.reload["mod_header"](url.Values{"path": {e.modBad}}))
+		default:
+			panic("c15: unknown step letter " + string(t))
+		}
+	}
+	out := vsched.Run(ch, c15maxStep, func() {
+		for ti, spec := range specs {
+			ti, spec := ti, spec
+			name := spec
+			if len(spec) > 1 {
+				name = "Q(" + spec + ")"
+			}
+			vsched.Go(name, func() {
+				for si, t := range spec {
+					step(t, slots[ti][si])
+				}
+			})
 		}
 	})
 	if sf := srv.ServerConf; sf != nil {
@@ -791,8 +926,16 @@ func (e *c15env) check(r *vk.Run, sc c15scn, id string, out vsched.Outcome, res 
 		r.Violation("deadlock", id, fmt.Sprintf("deadlock: blocked=%v", out.Blocked))
 		return
 	}
-	for _, m := range res.errs {
-		r.Violation("reload-error:"+strings.SplitN(m, ":", 2)[0], id, "a reload of a valid configuration failed: "+m)
+	for _, st := range res.steps {
+		rejected := strings.ContainsRune(c15gslbRejected+"pqe", st.letter)
+		switch {
+		case !rejected && st.err != "":
+			r.Violation("reload-error:"+string(st.letter), id, "the reload of a valid configuration failed: "+st.err)
+		case rejected && st.err == "":
+			r.Outcome("rejected-variant-" + string(st.letter) + ":accepted-without-error(not judged)")
+		case rejected:
+			r.Outcome("rejected-variant-" + string(st.letter) + ":error-returned")
+		}
 	}
 	if out.Races > 0 {
 		sigs := raceSig()
@@ -804,7 +947,7 @@ func (e *c15env) check(r *vk.Run, sc c15scn, id string, out vsched.Outcome, res 
 		}
 	}
 	final := c15verNum(res.finalVer)
-	if strings.ContainsAny(sc.threads, "SC") {
+	if sc.hasAny("SC") {
 		if res.finalRM == final {
 			r.Outcome("quiescence:balancer-gslb-basic=final-server-data-conf")
 		} else {
@@ -819,14 +962,25 @@ func (e *c15env) check(r *vk.Run, sc c15scn, id string, out vsched.Outcome, res 
 		}
 		s := c15verNum(o.snapVer)
 		if s == 0 {
-			r.Violation("snapshot:none", id, who+": no snapshot version")
+			r.Violation("snapshot:unknown-version", id, who+": the request's snapshot is not one of the successfully loaded versions (a rejected server data conf was published?)")
+			continue
+		}
+		// the snapshot must be a version that was (or is being) successfully applied; for a request
+		// that runs after the reloads of its own thread, with no other thread reloading server
+		// data, it must be exactly the last one applied
+		okSnap := s == 1 || (s == 2 && sc.has("S")) || (s == 3 && sc.has("C"))
+		if o.inSeq && strings.Count(sc.all(), "S")+strings.Count(sc.all(), "C") == strings.Count(sc.seqOf(o), "S")+strings.Count(sc.seqOf(o), "C") {
+			okSnap = s == o.seqS
+		}
+		if !okSnap {
+			r.Violation("snapshot:not-the-last-successfully-applied", id, fmt.Sprintf("%s: expected version %d", who, o.seqS))
 			continue
 		}
 		if !o.snapKept {
 			r.Violation("snapshot:replaced-during-request", id, who+": a later phase saw another snapshot object than readRequest took")
 		}
 		// mod_block version 1 closes /blocked1, version 2 (only after a B reload) closes /blocked2
-		blocked := sc.usesMods() && (o.path == "/blocked1" || (o.path == "/blocked2" && strings.Contains(sc.threads, "B")))
+		blocked := sc.usesMods() && (o.path == "/blocked1" || (o.path == "/blocked2" && sc.has("B")))
 		if !o.alCalled {
 			if blocked && o.fpCalled && o.fpProd == fmt.Sprintf("p%d", s) && o.action == closeDirectly {
 				r.Outcome("request:blocked-by-mod_block")
@@ -869,19 +1023,55 @@ func (e *c15env) check(r *vk.Run, sc c15scn, id string, out vsched.Outcome, res 
 			}
 			continue
 		}
-		allowed := map[string]bool{c15gslbOutcome(sc.balOf(), 1): true}
-		if strings.Contains(sc.threads, "G") {
-			allowed[c15gslbOutcome(sc.balOf(), 2)] = true
+		// Admissible: what the request gets under ONE successfully applied gslb configuration. A
+		// request running concurrently with reloads may see the initial data or those of any valid
+		// reload; a request that runs after the reloads of its own (sequential) thread must see the
+		// last one of them that applied (plus whatever other threads validly reload meanwhile). A
+		// REJECTED reload adds nothing: afterwards the last applied configuration still serves --
+		// except that a partially rejected one ('z') may have applied its (unchanged) data to the
+		// clusters the failure did not touch: old OR new, never "no cluster".
+		allowed := map[string]bool{}
+		add := func(g rune) {
+			if oc := c15gslbOutcome(sc.balOf(), g); oc != "" {
+				allowed[oc] = true
+			}
 		}
-		if strings.Contains(sc.threads, "g") {
-			allowed[c15gslbOutcome(sc.balOf(), 3)] = true
+		own := ""
+		if o.inSeq {
+			own = sc.seqOf(o)
+			for _, g := range o.seqG {
+				add(g)
+			}
+		} else {
+			add('1')
 		}
+		others := sc.all()
+		if own != "" {
+			others = strings.Replace(others, own, "", 1)
+		}
+		for _, g := range others {
+			if strings.ContainsRune(c15gslbValid+"z", g) {
+				add(g)
+			}
+		}
+		got := o.backend
 		if !o.fwCalled {
-			r.Violation("balance:failed:"+o.errCode, id, fmt.Sprintf("%s: no backend although every gslb version alone gives one of %v", who, c15keys(allowed)))
+			got = "fail:" + o.errCode
+		}
+		if !allowed[got] {
+			ctx := ""
+			if sc.hasAny(c15gslbRejected) {
+				ctx = ":with-rejected-gslb-reload"
+			}
+			if !o.fwCalled {
+				r.Violation("balance:failed:"+o.errCode+ctx, id, fmt.Sprintf("%s: the request fails with %s although every successfully applied gslb configuration alone gives it one of %v", who, o.errCode, c15keys(allowed)))
+			} else {
+				r.Violation("balance:mixed-pair"+ctx, id, fmt.Sprintf("%s: (sub-cluster/backend) %s is not the outcome of any successfully applied gslb configuration alone %v", who, o.backend, c15keys(allowed)))
+			}
 			continue
 		}
-		if !allowed[o.backend] {
-			r.Violation("balance:mixed-pair", id, fmt.Sprintf("%s: (sub-cluster/backend) %s is not the outcome of any gslb version alone %v", who, o.backend, c15keys(allowed)))
+		if !o.fwCalled {
+			r.Outcome(fmt.Sprintf("request:snapshot=V%d,%s(what its gslb configuration alone gives)", s, got))
 			continue
 		}
 		if o.status != 200 {
@@ -938,7 +1128,7 @@ func (e *c15env) check(r *vk.Run, sc c15scn, id string, out vsched.Outcome, res 
 			r.Violation("gslb-basic:older-than-request-snapshot:"+kind, id, fmt.Sprintf("%s: the request took its snapshot from version %d, yet the balancer ran with the gslb-basic parameters (RetryMax, CrossRetry, HashConf, BalanceMode) of version %d, which had been replaced before the request started; when all reloads had finished the server data conf was version %d and the balancer had the parameters of version %d", who, s, o.retryMax, final, res.finalRM))
 		}
 		if sc.usesMods() {
-			hasE, hasW := strings.Contains(sc.threads, "E"), strings.Contains(sc.threads, "W")
+			hasE, hasW := sc.has("E"), sc.has("W")
 			okv := func(v, pfx string, reloaded bool) bool { return v == pfx+"1" || (reloaded && v == pfx+"2") }
 			switch {
 			case !okv(o.reqHdr, "m", hasE) || !okv(o.respHdr, "m", hasE):
@@ -955,7 +1145,7 @@ func (e *c15env) check(r *vk.Run, sc c15scn, id string, out vsched.Outcome, res 
 		}
 		r.Outcome(fmt.Sprintf("request:snapshot=V%d,backend=%s", s, o.backend))
 	}
-	hasL := strings.Contains(sc.threads, "L")
+	hasL := sc.has("L")
 	for _, o := range res.tls {
 		// expected field values of the rule for this connection in tls version 1 and 2
 		type tv struct {
@@ -1127,6 +1317,30 @@ func c15passes(thorough bool) []c15pass {
 		{name: "R+B+W", threads: "RBW", paths: []string{"/rw"}},
 		{name: "R+E+E", threads: "REE"},
 	}
+	// reloads that bfe must reject, racing a request / running before it
+	two = append(two,
+		c15scn{name: "R+y", threads: "Ry"},
+		c15scn{name: "R+q", threads: "Rq"},
+	)
+	three = append(three,
+		c15scn{name: "R+x", threads: "Rx"},
+		c15scn{name: "R+p", threads: "Rp"},
+		c15scn{name: "R+w", threads: "Rw"},
+		c15scn{name: "R+e", threads: "Re"},
+		c15scn{name: "R+S+q/b2", threads: "RSq", bal: 2},
+		c15scn{name: "R+G+y", threads: "RGy"},
+		c15scn{name: "R+Q(Gy)", threads: "R", seqs: []string{"Gy"}},
+		c15scn{name: "R+Q(yG)", threads: "R", seqs: []string{"yG"}},
+		c15scn{name: "R+Q(qS)/b2", threads: "R", seqs: []string{"qS"}, bal: 2},
+	)
+	// sequential histories (one thread): valid -> rejected -> request, and recovery afterwards
+	var seq []c15scn
+	for _, q := range []string{"xR", "yR", "zR", "wR", "GxR", "GyR", "GzR", "gzR", "zRgR", "yRGR", "zRzR", "pR", "qR"} {
+		seq = append(seq, c15scn{name: "Q(" + q + ")", seqs: []string{q}})
+	}
+	for _, q := range []string{"SpR", "SqR", "SqRCR", "pSR"} {
+		seq = append(seq, c15scn{name: "Q(" + q + ")/b2", seqs: []string{q}, bal: 2})
+	}
 	four := []c15scn{
 		{name: "R+S+G+R/b2", threads: "RSGR", bal: 2},
 		{name: "R+S+C+G/b3", threads: "RSCG", bal: 3},
@@ -1135,7 +1349,7 @@ func c15passes(thorough bool) []c15pass {
 		{name: "R+S+G+W/b1", threads: "RSGW", paths: []string{"/rw"}, bal: 1},
 	}
 	if !thorough {
-		return []c15pass{{2, two, true}, {1, three, true}, {0, four, true}}
+		return []c15pass{{2, two, true}, {1, three, true}, {0, four, true}, {1, seq, true}}
 	}
 	// thorough: the three-thread scenarios that only repeat, at bound 2, what a sibling covers
 	// (same thread mix with the balancer on the other cluster / the other gslb flavour) are
@@ -1147,7 +1361,7 @@ func c15passes(thorough bool) []c15pass {
 		}
 		three2 = append(three2, sc)
 	}
-	return []c15pass{{3, two, false}, {2, three2, false}, {1, four, false}}
+	return []c15pass{{1, seq, true}, {3, two, false}, {2, three2, false}, {1, four, false}}
 }
 
 func TestVerifC15(t *testing.T) {
@@ -1285,7 +1499,7 @@ func TestVerifC15(t *testing.T) {
 				r.Traces(execs)
 				r.Set("sum_interleavings:"+name, float64(execs))
 				r.Set("max_distinct_observations_in_a_shard:"+name, float64(len(states)))
-				r.Sample(map[string]interface{}{"scenario": name, "threads": sc.threads, "interleavings_this_shard": execs, "distinct_observations": len(states)})
+				r.Sample(map[string]interface{}{"scenario": name, "threads": strings.Join(sc.specs(), " | "), "interleavings_this_shard": execs, "distinct_observations": len(states)})
 			}
 			if stop() {
 				break
